@@ -50,3 +50,39 @@ package fft
 //@ ensures[precompute-flag] result.withPrecompute == pre
 //@ modifies nothing
 //@ end
+
+// ReadFrom must work from any reader: an io.Reader may return fewer bytes than asked for without an error, so a
+// field may only be decoded from a buffer that the read filled completely. The element decoder and binary.Read are
+// opaque calls; the reader enters through the assumed contracts of io.Reader / io.ReadFull.
+
+//@ func (io.Reader).Read
+//@ assumed interface io.Reader: Read copies at most len(p) bytes into p and reports how many; it may return fewer bytes than len(p) without an error
+//@ ensures 0 <= result0 && result0 <= len(p)
+//@ modifies p
+//@ end
+
+//@ func io.ReadFull
+//@ assumed io.ReadFull (standard library): copies into buf from the reader and reports how many bytes it copied, at most len(buf), and exactly len(buf) when it returns no error
+//@ ensures 0 <= result0 && result0 <= len(buf) && (isnil(result1) ==> result0 == len(buf))
+//@ modifies buf
+//@ end
+
+//@ func Domain.ReadFrom
+//@ option opaque-calls
+//@ option opaque-writes Read:2
+//@ option nomerge
+//@ ghost short = false
+//@ cut after call io.Reader.Read #*
+//@ + optional
+//@ + ghost short = short || (isnil(callresult1) && callresult0 < len(callarg1))
+//@ cut after call io.ReadFull #*
+//@ + optional
+//@ + ghost short = short || (isnil(callresult1) && callresult0 < len(callarg1))
+//@ loop 0
+//@ + invariant[index] 0 <= iter && iter <= 5
+//@ + invariant[whole-buffers-so-far] !short
+//@ cut before call Element #*
+//@ + invariant[decoded-from-a-full-buffer] !short
+//@ ensures[whole-buffers] isnil(result1) ==> !short
+//@ modifies d
+//@ end
